@@ -937,6 +937,9 @@ def _lambda_text(sub):
 
 
 CONFIGS = [Config(s, p, h) for s in (False, True) for p in (False, True) for h in (False, True) if not (s and p)]
+# one-sided / absent bounds ("with one-sided bounds" is a clause of C01): the quick tier runs the patterns below, the thorough tier the whole product
+ONE_SIDED = [Config(s, p, h, bounds=b) for b in ("lower-only", "upper-only") for (s, p, h) in ((False, False, False), (False, True, False), (True, False, True))]
+FULL_PRODUCT = [Config(s, p, h, bounds=b) for s in (False, True) for p in (False, True) for h in (False, True) for b in ("both", "lower-only", "upper-only", "none")]
 
 _RUNS = {}
 
